@@ -75,7 +75,7 @@ def run(R, cfg, over=None):
             def pred(s_np, ts_np, n=n):
                 vals = dict(("reset: " + k, x) for k, x in D.spec_bounds_obl(env.observation_spec, S.conc_tree(ts_np).observation))
                 return bool(vals[n]), {"config": cfg, "obligation": n}
-            R.prove(n, list(ctx.assumptions), v.term() if not v.conc else bool(v), replay=C.reset_key_search(env, pred, 256))
+            R.prove(n, list(ctx.assumptions), v.term() if not v.conc else bool(v), replay=C.reset_replayer(env.reset, ctx, key, lambda out, pred=pred: pred(out[0], out[1]), 256))
 
 
 def run_struct_only(R, name, default=False):
